@@ -634,7 +634,7 @@ func checkC10(c *Ctx) {
 			facts := fl.At(s)
 			okKauri := falseOf(facts, func(k string) bool { return strings.HasPrefix(k, "(*hs/core.RuntimeConfig).HasKauriTree(") }) ||
 				trueOf(facts, func(k string) bool {
-					return strings.HasPrefix(k, "(*hs/core.RuntimeConfig).ReplicaInfo(") && strings.Contains(k, "ProposerID(") && strings.HasSuffix(k, "#1")
+					return strings.HasPrefix(k, "(*hs/core.RuntimeConfig).ReplicaInfo(") && isCarriedProposerKey(k) && strings.HasSuffix(k, "#1")
 				})
 			// path-sensitive alternative: no path from the "HasKauriTree is true" edge reaches the use without the ReplicaInfo ok edge
 			if !okKauri {
